@@ -67,7 +67,43 @@ def run_case(case):
     return res
 
 
+def connect_signature(specs, links, order, lo):
+    from harness import cnode
+
+    out, comps = cnode.run_connect(specs, links, list(order), list(lo))
+    sig = dict(outcome=list(out[:2]) if out[0] != "exc" else [out[0], out[1]])
+    if out[0] == "ok":
+        sig["data"] = {n + "." + i: None if c.connector.in_data.get(i) is None else round(float(c.connector.in_data[i].magnitude.ravel()[0]), 9) for n, c in sorted(comps.items()) for i, _m in c.ins}
+        sig["infos"] = {n + "." + i: (str(c.inputs[i].info.grid), str(c.inputs[i].info.units), str(c.inputs[i].info.time)) for n, c in sorted(comps.items()) for i, _m in c.ins}
+        sig["pubs"] = {n + "." + o[0]: sorted(str(t) for t, _ in c.outputs[o[0]].data) for n, c in sorted(comps.items()) for o in c.outs}
+    return sig
+
+
+def run_connect_case(case):
+    res = dict(n=0, traces=0, states=0, transitions=0, nontrivial=0, counters={}, violations=[])
+    for specs, links in case["shapes"]:
+        specs = [(s[0], [tuple(x) for x in s[1]], [tuple(x) for x in s[2]], s[3]) for s in specs]
+        links = [((l[0][0], l[0][1]), (l[1][0], l[1][1])) + tuple(l[2:]) for l in links]
+        names = [s[0] for s in specs]
+        base = json.dumps(connect_signature(specs, links, names, range(len(links))), sort_keys=True)
+        pairs = [(case["order"], case["link_order"])] if case.get("order") else [(o, lo) for o in itertools.permutations(names) for lo in (itertools.permutations(range(len(links))) if len(links) <= 3 else [tuple(range(len(links))), tuple(reversed(range(len(links))))])]
+        for o, lo in pairs:
+            sj = json.dumps(connect_signature(specs, links, o, lo), sort_keys=True)
+            res["n"] += 1
+            res["traces"] += 1
+            if sj != base:
+                a, b = json.loads(base), json.loads(sj)
+                what = [k for k in a if a.get(k) != b.get(k)] or ["outcome"]
+                res["violations"].append(viol(dict(kind="connect_outcome_depends_on_order", differs=what[0], base=a["outcome"][0], other=b["outcome"][0]), f"connect phase specs={specs} links={links}: listing {o} / link order {lo} gives {b['outcome']} vs identity order {a['outcome']} ({what})", dict(connect=True, shapes=[[specs, links]], order=list(o), link_order=list(lo))))
+        res["nontrivial"] += 1
+    res["states"] = res["transitions"] = res["n"]
+    res["sample"] = dict(connect_shape=case["shapes"][0][0])
+    return res
+
+
 def replay(case):
+    if case.get("connect"):
+        return run_connect_case(case)["violations"]
     return run_case(case)["violations"]
 
 
@@ -97,6 +133,10 @@ def cases(tier):
                 cs.append(with_steps(F.line3(c1, c2, end=8), st))
                 cs.append(with_steps(F.join3(c1, c2, end=8), st))
                 cs.append(with_steps(F.fan3(c1, c2, end=8), st))
+    # fan-out behind a no-branch adapter: rejected by validation, for every order alike
+    for st in steplists3[:2]:
+        cs.append(with_steps(F.fan3trunk([F.TOK["L"]], [], [], end=8), st))
+        cs.append(with_steps(F.fan3trunk([F.TOK["S"], F.TOK["P1"]], [], [F.TOK["S"]], end=8), st))
     for trunk in ([F.TOK["S"]], [F.TOK["S"], F.TOK["S"]]):
         for c1 in F.chains(["L", "F1", "S"], 1):
             for c2 in F.chains(["L", "F1"], 1):
@@ -138,10 +178,18 @@ def run(tier, seed, agg):
     cs = cs[k:] + cs[:k]
     for r in pmap(run_case, cs, chunksize=2):
         agg.add(r)
+    # connect phase: dependency shapes of metadata / initial data exchange (harness of C06), every listing and link order against the identity order
+    from checks import c06
+
+    shapes = list(c06.two_slot_shapes()) + list(c06.stuck_plus_arg_shapes()) + list(c06.trunk_shapes()) + list(c06.single_slot_shapes(3, lambda n: [(0, 0, 0)], max_ext=0 if tier == "quick" else 1))
+    shapes += list(c06.staged_shapes())
+    for r in pmap(run_connect_case, [dict(shapes=shapes[i : i + 25]) for i in range(0, len(shapes), 25)]):
+        agg.add(r)
     return dict(
         level="model_checking",
         rule="for every configuration ALL n! listing orders x ALL link-creation orders (<=3 links quick / <=4 thorough; rotations beyond) are executed on the real Composition with fixed cyclic step lists; "
         "the outcome signature (exception class, exchanged infos of every slot, final times, full (time,value) series of every consumer incl. initial pulls) must equal that of the identity order. "
+        "Connect phase: the dependency shapes of C06 (metadata / initial data, two-slot components, stuck cycles, fan-out behind an adapter, staged feedback) under all listing and link orders: outcome, stuck-component list, exchanged infos, initial values and initial publications must not depend on the order. "
         "states/transitions = component-update states visited; non-trivial = configurations in which the driver had to break a tie between equally advanced components",
         bound=dict(components="<=4", horizon_h=8, chain_len=1 if tier == "quick" else 2),
         assumptions=["domain as stated: producers declare units and grids, no DelayToPush", "cycles with positive but insufficient delay are excluded (their outcome legitimately depends on tie-breaking; C04 accepts either)"],
